@@ -72,6 +72,26 @@ type proxyCase struct {
 	HashFirst bool `json:"hash_first,omitempty"`
 	// Stray names entries of the served directory that are not module versions (a trailing / makes a directory).
 	Stray []string `json:"stray,omitempty"`
+	// Abort: before anything else, a client asks for every version's .zip and hangs up without reading the answer (the
+	// very first request for that version): what the others get afterwards must not depend on it.
+	Abort bool `json:"abort,omitempty"`
+}
+
+// hangUp sends one GET and closes the connection without reading the response.
+func hangUp(base, path string) {
+	// base is the server's URL, http://host:port/mod
+	rest := strings.TrimPrefix(base, "http://")
+	host, prefix := rest, ""
+	if i := strings.Index(rest, "/"); i >= 0 {
+		host, prefix = rest[:i], rest[i:]
+	}
+	conn, err := net.DialTimeout("tcp", host, 2*time.Second)
+	if err != nil {
+		return
+	}
+	fmt.Fprintf(conn, "GET %s HTTP/1.1\r\nHost: %s\r\n\r\n", prefix+path, host)
+	time.Sleep(300 * time.Microsecond)
+	conn.Close()
 }
 
 var seq int64
@@ -223,6 +243,14 @@ func checkProxy(c proxyCase) *vt.Fail {
 	cl := newClient()
 	defer srv.Close()
 	defer cl.CloseIdleConnections()
+	if c.Abort {
+		for _, m := range c.Mods {
+			encP, _ := module.EscapePath(m.Path)
+			encV, _ := module.EscapeVersion(m.Version)
+			hangUp(srv.URL, "/"+encP+"/@v/"+encV+".zip")
+		}
+		time.Sleep(30 * time.Millisecond) // let the server notice
+	}
 	// ---- sequential phase with the oracle ----
 	type req struct {
 		url   string
@@ -641,6 +669,23 @@ func genProxy(t *rapid.T) proxyCase {
 	}
 	c.Order = rapid.SliceOfN(rapid.IntRange(0, 1000), 4, 12).Draw(t, "order")
 	c.HashFirst = rapid.Bool().Draw(t, "hashfirst")
+	c.Abort = rapid.IntRange(0, 3).Draw(t, "abort") == 2
+	if c.Abort {
+		// the version's zip must take long enough to build for the hang-up to arrive in the middle of it, with files
+		// still to come
+		for i := range c.Mods {
+			has := map[string]bool{}
+			for _, f := range c.Mods[i].Files {
+				has[f.Name] = true
+			}
+			if !has["big.dat"] {
+				c.Mods[i].Files = append([]mfile{{Name: "big.dat", Data: vt.B("big\n"), Pad: 1 << 19}}, c.Mods[i].Files...)
+			}
+			if !has["z_last.txt"] {
+				c.Mods[i].Files = append(c.Mods[i].Files, mfile{Name: "z_last.txt", Data: vt.B("last\n")})
+			}
+		}
+	}
 	c.Stray = rapid.SliceOfNDistinct(rapid.SampledFrom([]string{"README", "notes.txt", "plain/", "archive.txtar", "example.com_a.txt", ".hidden.txt", "go.mod"}), 0, 3, rapid.ID[string]).Draw(t, "stray")
 	return c
 }
@@ -697,7 +742,7 @@ func TestProxy(t *testing.T) {
 	rec.Class("proxy:go-mod-downloads", e2eDownloads)
 }
 
-var replayers = vt.Replayer{"proxy": vt.Decode(checkProxy)}
+var replayers = vt.Replayer{"transient": vt.Decode(checkTransient), "proxy": vt.Decode(checkProxy)}
 
 func TestReplay(t *testing.T) { vt.Replay(t, rec, replayers) }
 
